@@ -224,8 +224,10 @@ class Peeling_Tree():
             parent_qubits = self.H[parents, :].toarray().astype(bool)
             leaf_qubits = self.H[curr_leaves_ind, :].toarray().astype(bool)
             syndrome_leaves = curr_syndromes[curr_leaves_ind]
-            correction.extend(np.where((parent_qubits & leaf_qubits)[
-                              syndrome_leaves, :])[1].tolist())
+            # One qubit per (parent, leaf) pair: on small tori two qubits can
+            # join the same pair of checks, and flipping both cancels out
+            shared_qubits = (parent_qubits & leaf_qubits)[syndrome_leaves, :]
+            correction.extend(shared_qubits.argmax(axis=1).tolist())
             self._update_syndrome(parents, curr_leaves_ind, curr_syndromes)
             child_to_p[curr_leaves_ind, :] = 0
             curr_leaves_ind = np.unique(np.array(parents)[np.where(
